@@ -6,8 +6,8 @@ package main
 
 import (
 	"fmt"
-	"os"
 	"go/types"
+	"os"
 	"runtime"
 	"sort"
 	"strings"
@@ -22,22 +22,22 @@ type geomParam struct {
 }
 
 type shapeRun struct {
-	entry   *ssa.Function
-	label   string
-	faults  []*Fault
-	paths   int
-	trunc   int
-	truncWhy map[string]int
-	steps   int
-	finished []*State
+	entry       *ssa.Function
+	label       string
+	faults      []*Fault
+	paths       int
+	trunc       int
+	truncWhy    map[string]int
+	steps       int
+	finished    []*State
 	unsupported map[string]int
 }
 
 type shapeConfig struct {
-	label    string
-	keep     func(key string) bool
-	override paramOverride
-	floor    int
+	label       string
+	keep        func(key string) bool
+	override    paramOverride
+	floor       int
 	onlyGeneric bool // only entries that take the orb.Geometry interface
 	hostile     bool // decoder entries: judge allocation sizes against the input length
 	// extra entries that are not exported (by ShortKey)
